@@ -189,7 +189,7 @@ def main():
                      "kind_free_text": "repository-specific static analyser (go/packages + go/types + go/cfg, own dominator/fact layer, Fourier-Motzkin bounds prover): rule engines E1..E13 of DESIGN.md Part I"}],
         "checks": checks,
         "not_applicable": na,
-        "notes": "All checks are static analyses of /repo's current working tree; none executes hcl-lang code. Thorough tier = second build configuration (GOARCH=386) + self-validation against /verif/seeded (scratch copies under the system temp dir, removed afterwards) + the quick analysis. Known findings: /verif/known_findings.json.",
+        "notes": "All checks are static analyses of /repo's current working tree; none executes hcl-lang code. Thorough tier = second build configuration (GOARCH=386) + self-validation against /verif/seeded (scratch copies under the system temp dir, removed afterwards) + the quick analysis. Known findings: /verif/known_findings.json. The idiom-deviation rules E15.* / E16.* are applied to functions of the reviewed inventory and to helpers those call; functions added later and reachable only from such additions are covered by the safety rules (E2-E6, E14) only (DESIGN.md §I.24).",
     }
     json.dump(m, open("/verif/MANIFEST.json", "w"), indent=1)
     try:
